@@ -7,7 +7,7 @@ import ast
 from ..base import check_call_bases
 from ..dataflow import origins
 from ..layout import reshape_sites
-from ..model import calls_in, unparse
+from ..model import calls_in, unparse, walk_no_nested
 from ..norm import Normalizer, mentions_name, show, subterms
 from ..rules import calls_from, r_effect_free, r_live, r_order, r_thread, value_at
 from ..symshape import monomial, same_monomial, strip_casts
@@ -24,6 +24,23 @@ def run(ctx):
     pt = m.func("partial_trace.partial_trace")
     N = Normalizer(m, pt)
     Nn = Normalizer(m, pt, inline=False)
+    # the sum over the traced indices must widen narrow integer dtypes the way np.sum / np.trace do (int8 .. int32 are summed in the
+    # platform integer); np.einsum accumulates in the operand's own dtype, so a contraction written with it wraps around for small
+    # integer types unless it is given an explicit dtype
+    ctx.rule("R-DTYPE", "the contraction over the traced subsystems does not accumulate in a narrow operand dtype")
+    ein = [c for c in walk_no_nested(pt.node) if isinstance(c, ast.Call) and m.resolve_call(pt, c).key in ("numpy.einsum", "numpy.tensordot") and c.args]
+    badc = None
+    for c in ein:
+        if m.resolve_call(pt, c).key == "numpy.einsum" and isinstance(c.args[0], ast.Constant) and isinstance(c.args[0].value, str):
+            spec = c.args[0].value.replace(" ", "")
+            lhs, _, rhs = spec.partition("->")
+            contracted = any(lhs.count(ch) > 1 for ch in set(lhs) if ch.isalpha()) or any(ch.isalpha() and ch not in rhs for ch in lhs)
+            if contracted and not any(kw.arg == "dtype" for kw in c.keywords):
+                badc = badc or c
+    ctx.ob("R-DTYPE", pt, "sums over the traced indices widen narrow integer dtypes (np.sum / np.trace, or einsum with a dtype)", badc is None,
+           f"{len(ein)} einsum / tensordot contraction(s) without an accumulator dtype" if badc is None else
+           f"`{unparse(badc)[:60]}` sums in the dtype of the operand: for an int8 matrix full of 100 the block sums wrap around (-56 instead of 200), while "
+           "np.sum accumulates int8/int16/int32 in the platform integer", badc)
     og = origins(pt)
 
     r_order(ctx, pt, "permute_systems.permute_systems", "perm")
